@@ -3,7 +3,7 @@
 From Coq Require Import ZArith List Bool Lia.
 Import ListNotations.
 From Mds Require Import Gen.CacheIdx Gen.HeapqIdx Heapq.HeapqModel Heapq.HeapqSpec Cache.CacheSpec Cache.CacheModel
-  Cache.CacheS2Proofs Cache.CacheHeapGuard.
+  Cache.CacheS2Proofs Cache.CacheHeapGuard Cache.CacheModel64 Cache.CacheInt.
 Local Open Scope Z_scope.
 
 Theorem refines_S2_sound_heap :
@@ -98,3 +98,25 @@ Qed.
    the regenerated Gen files *)
 Theorem store_shape_ok : store_shape = true.
 Proof. vm_compute. reflexivity. Qed.
+
+(* machine integers: the 64-bit wrap-around model is the Z model, for every int64 limit > 0 and every
+   size function with values in [0, 2^63), every variant, every history *)
+Theorem model64_eq_model :
+  forall (K V : Type) (keqb : K -> K -> bool),
+    (forall a b, keqb a b = true <-> a = b) ->
+  forall (kzero : K) (vzero : V) (sizeOf : V -> Z),
+    (forall v, 0 <= sizeOf v < 2 ^ 63) ->
+  forall (lim : Z), 0 < lim < 2 ^ 63 ->
+  forall (hv : variant) (ops : list (op K V)),
+    run_new_w K V keqb kzero vzero sizeOf hv wrap64 lim ops = run_new K V keqb kzero vzero sizeOf hv lim ops.
+Proof.
+  intros K V keqb Hk kzero vzero sizeOf Hs lim Hl hv ops.
+  exact (run64_eq K V keqb Hk kzero vzero sizeOf Hs lim Hl hv ops).
+Qed.
+
+(* the wrap-parametrised copy instantiated with the identity is the model of CacheModel.v *)
+Theorem model_w_id_is_model :
+  forall (K V : Type) (keqb : K -> K -> bool) (kzero : K) (vzero : V) (sizeOf : V -> Z) (hv : variant)
+         (c : cache K V) (ops : list (op K V)),
+    run_w K V keqb kzero vzero sizeOf hv (fun z => z) c ops = run K V keqb kzero vzero sizeOf hv c ops.
+Proof. intros. apply run_w_id. Qed.
